@@ -105,6 +105,33 @@ func parseSx(s string) ([]*sx, error) {
 	return cur, nil
 }
 
+// expandLets substitutes (let ((x v) ...) body) forms.
+func expandLets(v *sx, env map[string]*sx) *sx {
+	if v.list == nil {
+		if r, ok := env[v.atom]; ok {
+			return r
+		}
+		return v
+	}
+	if len(v.list) == 3 && v.list[0].atom == "let" && v.list[1].list != nil {
+		ne := map[string]*sx{}
+		for k, x := range env {
+			ne[k] = x
+		}
+		for _, b := range v.list[1].list {
+			if b.list != nil && len(b.list) == 2 {
+				ne[b.list[0].atom] = expandLets(b.list[1], env)
+			}
+		}
+		return expandLets(v.list[2], ne)
+	}
+	out := &sx{list: make([]*sx, len(v.list))}
+	for i, e := range v.list {
+		out.list[i] = expandLets(e, env)
+	}
+	return out
+}
+
 // modelInt: integer value of an Int / BV / Real-integer term
 func modelInt(v *sx) (*big.Int, bool) {
 	if v.list == nil {
@@ -478,7 +505,7 @@ func parseModel(model string, n int) ([]*sx, error) {
 					ok = false
 					break
 				}
-				out[i] = pair.list[1]
+				out[i] = expandLets(pair.list[1], map[string]*sx{})
 			}
 			if ok {
 				return out, nil
